@@ -66,7 +66,14 @@ def _centre(name):
     return [round(sum(c[i] for c in xs) / len(xs), 3) for i in range(3)]
 
 
-def mk_translate(name, axis, lo, hi, keep, rotation=None, extra_args=(), params=None):
+def _mid(name):
+    """residue number of the middle residue of a tri-peptide fixture"""
+    nums = sorted({int(l[22:26]) for l in M.text(name).split('\n') if l.startswith('ATOM')})
+    return nums[1]
+
+
+def mk_translate(name, axis, lo, hi, keep, rotation=None, extra_args=(), params=None, pre=(0.0, 0.0, 0.0)):
+    """pre: a concrete translation (on the 0.001 grid) applied before the symbolic one, e.g. to bring the structure to the origin"""
     def body(ctx):
         txt, base = baseline(name, keep, extra_args, params)
         k = ctx.int('shift_thousandths', int(round(lo * 1000)), int(round(hi * 1000)))
@@ -76,7 +83,7 @@ def mk_translate(name, axis, lo, hi, keep, rotation=None, extra_args=(), params=
             v = (a.x, a.y, a.z)
             if rotation is not None:
                 v = rot(rotation, v)
-            v = list(v)
+            v = [round(c + p, 3) if not hasattr(c, 'e') else c + p for c, p in zip(v, pre)]
             for ax in axis:
                 v[ax] = v[ax] + t
             a.x, a.y, a.z = v
@@ -109,7 +116,7 @@ def mk_translate(name, axis, lo, hi, keep, rotation=None, extra_args=(), params=
                     continue
                 moved = []
                 for p in pb_[parent]:
-                    q = list(rot(rotation, p) if rotation is not None else p)
+                    q = [c + p_ for c, p_ in zip(rot(rotation, p) if rotation is not None else p, pre)]
                     for ax in axis:
                         q[ax] = q[ax] + t
                     moved.append(q)
@@ -245,6 +252,23 @@ def obligations(tier):
                                       claim_doc='bonds, groups, num_volume, buried, energy_volume identical; pKa and determinants identical (keep-protons) / '
                                                 'within %.2f (built hydrogens, positions within rounding of the shifted ones)' % TOL,
                                       max_paths=5000, wall_s=170 if tier == 'quick' else 1200, query_timeout_ms=20000))
+    # incompletely modelled residues ('for every structure'): side chains cut back, so that group set-up takes its fall-back paths
+    # (group centre, interaction atoms); translation along one axis each
+    cut = [('tri_ASP~-OD2@25', 'x'), ('tri_ASP~-OD1-OD2@25', 'y'), ('tri_GLU~-OE1-OE2@21', 'z')]
+    if tier == 'thorough':
+        cut += [('tri_HIS~-ND1-CE1@%d' % _mid('tri_HIS'), 'x'), ('tri_ARG~-NH1-NH2@%d' % _mid('tri_ARG'), 'y'), ('tri_TYR~-OH@%d' % _mid('tri_TYR'), 'z'), ('tri_LYS~-NZ@%d' % _mid('tri_LYS'), 'x'),
+                ('tri_ASN~-OD1@%d' % _mid('tri_ASN'), 'y'), ('tri_GLN~-NE2@%d' % _mid('tri_GLN'), 'z'), ('tri_TRP~-NE1-CE2@%d' % _mid('tri_TRP'), 'x'), ('pep8~-OD1-OD2@29', 'y'), ('pair_ASP_ARG~-OD1@29', 'z')]
+    for name, axn in cut:
+        ax = ('xyz'.index(axn),)
+        cen = _centre(name)
+        # ... compared with the same structure brought to the coordinate origin (a point that does not move with the molecule)
+        obs.append(Obligation('O1-translation-to-origin[%s,%s,built-hydrogens]' % (name, axn), mk_translate(name, ax, -1.25, 1.259, False, pre=tuple(-c for c in cen)),
+                              code=code_pipe + ['propka/group.py:*Group.setup_atoms', 'propka/group.py:Group.set_center'],
+                              bounds='micro-structure %s moved so that its centre is at the origin, then shifted by t = k/1000 along %s, t in [-1.25,1.259]; compared with the structure where it is in the file' % (name, axn),
+                              claim_doc='as O1-translation', max_paths=5000, wall_s=170 if tier == 'quick' else 1200))
+        obs.append(Obligation('O1-translation[%s,%s,built-hydrogens]' % (name, axn), mk_translate(name, ax, 0.0, 2.509, False), code=code_pipe + ['propka/group.py:*Group.setup_atoms', 'propka/group.py:Group.set_center'],
+                              bounds='micro-structure %s (atoms after ~ removed from residue @n: an incompletely modelled side chain) shifted by t = k/1000 along %s, t in [0,2.509]' % (name, axn),
+                              claim_doc='as O1-translation', max_paths=5000, wall_s=170 if tier == 'quick' else 1200))
     # a protein-ligand-ion micro-complex: the heavy-atom clauses (bonds incl. protein-ligand, protein / ligand / ion groups, desolvation, buried)
     for ax, axn in (axes[:1] if tier == 'quick' else axes[:3]):
         for params, ptag in (((M.BURIED, ',buried'),) if tier == 'quick' else ((None, ''), (M.BURIED, ',buried'))):
